@@ -18,7 +18,8 @@ func init() {
 			"(R1) the free protocol at the Shrink site: an empty relation table freed while its targets are alive leaves the active list, both per-target indices and every cached filter (rule C04/R3); " +
 			"(R2) Shrink is rejected on a locked world (rule C07/R1: capacity change and table freeing are structural stores); " +
 			"(R3) the remaining-work scan answers true exactly for the conditions under which the work loop acts: per branch the same capacity argument is passed to the shrink and to the can-shrink role, the free condition is the same, and both roles compute the same target with opposite comparison polarity; " +
-			"(R4) the shrink target is max(round(len), minimum) with the same rounding function that growth uses, applied to the length itself; the capacity change keeps the live rows (rules C01/R6, C11/R4). " +
+			"(R4) the shrink target is max(round(len), minimum) with the same rounding function that growth uses, applied to the length itself; the capacity change keeps the live rows (rules C01/R6, C11/R4); " +
+			"(R5) the loop of the storage-level Shrink that calls the table shrink role is a full loop over the table list. " +
 			"Not decided: the rounding arithmetic itself; behavioural invisibility for all later operations; convergence of time-boxed calls.",
 		TrustedBase: []string{"go/types, go/cfg", "rules C04/R3 and C07/R1", "documented bound: capacity ≤ max(initial capacity, next power of two of size)"},
 		Rules: []Rule{
@@ -27,8 +28,61 @@ func init() {
 			{ID: "C15/R3", Run: c15r3, Min: 1},
 			{ID: "C15/R4", Run: c15r4, Min: 1},
 			{ID: "C04/R12", Run: c04r12, Min: 1},
+			{ID: "C15/R5", Run: c15r5, Min: 1},
 		},
 	})
+}
+
+// c15r5: the work loop of the storage-level Shrink visits every table.
+//
+// "After an unbounded Shrink every table is at its bound" needs the pass that calls the table shrink role to look at
+// all tables: the loop whose body calls the role must be a full loop over the storage's table list (a range, or a
+// counting loop from 0 to its length). A loop that starts at a remembered position skips the tables before it.
+func c15r5(c *core.Ctx) {
+	m := c.M
+	shrink, _ := shrinkRoles(c)
+	if shrink == nil {
+		c.Undecide("C15/R5", "shrink role", "not derivable")
+		return
+	}
+	n := 0
+	for _, f := range m.Funcs {
+		if f.Recv != "storage" {
+			continue
+		}
+		core.InspectNoLits(f.Body, func(x ast.Node) bool {
+			call, ok := x.(*ast.CallExpr)
+			if !ok {
+				return true
+			}
+			if _, ok := callTo(m, call, shrink); !ok {
+				return true
+			}
+			loop := enclosingLoopOf(f, call)
+			if loop == nil {
+				return true
+			}
+			// the outermost loop around the call
+			for {
+				outer := enclosingLoopOf(f, loop)
+				if outer == nil || outer == loop {
+					break
+				}
+				loop = outer
+			}
+			n++
+			subject := f.Name + ": work loop"
+			if _, full := loopOverAll(m, loop, "storage.tables"); full {
+				c.OK("C15/R5", subject, c.At(loop.Pos()), "the loop that shrinks tables ranges over the whole table list")
+			} else {
+				c.Violation("C15/R5", subject, c.At(loop.Pos()), f.Name+": the loop that calls the table shrink role is not a full loop over the storage's table list (range, or counting from 0 to its length); tables outside the visited part keep their excess capacity even after an unbounded Shrink")
+			}
+			return true
+		})
+	}
+	if n == 0 {
+		c.Undecide("C15/R5", "work loop", "no loop in a storage method calls the table shrink role")
+	}
 }
 
 // shrink roles on table: Shrink(min) bool mutates capacity; CanShrink(min) bool is store-free.
